@@ -40,5 +40,7 @@ def run(ck):
         traces.append(dbgen.gen_chaos_trace(ck.rng, length=40))
     if not ok:
         return
+    ncorp = len(dbprops.load_corpus("C10"))
+    traces = traces[:ncorp] + [dbgen.with_lag(ck.rng, t, 0.4) for t in traces[ncorp:]]    # a follower catching up by snapshot must serve the same mailboxes
     dbprops.run_db_property(ck, eng, traces, [dbprops.mon_c10], with_replicas=False, nontrivial=nontrivial)
     ck.sample({"trace": dbengine.trace_to_json(traces[3][:10])})
